@@ -289,6 +289,8 @@ func formats(r *rand.Rand) []spec {
 		base("callgrind"), base("callgrind", "call_tree"), base("tags"), base("traces"), base("raw"), base("proto"), base("topproto"), base("text", "tagroot=k", "tagleaf=j"),
 		base("disasm", "disasm=."), base("proto", "show_from=g"), base("raw", "show_from=f|h"), base("proto", "focus=f", "hide=g"), base("raw", "prune_from=g"), base("proto", "tagfocus=a", "taghide=j"),
 		base("proto", "symbolize=local"), base("raw", "symbolize=local"), base("top", "symbolize=local"), base("comments"), base("list", "list=."),
+		// two options of one group on the command line (an error, or whatever pprof makes of it: the same every time)
+		base("top", "cum", "flat"), base("top", "lines", "functions"),
 	}
 }
 
@@ -525,13 +527,16 @@ func runSession(c *harness.Ctx) harness.Result {
 	if err := p.WriteUncompressed(&buf); err != nil {
 		return harness.Result{Verdict: harness.Inconclusive, Detail: err.Error()}
 	}
-	cmds := []string{"top", "top -cum", "tree", "traces", "tags", "raw", "peek .", "dot", "callgrind", "top 3", "comments", "text f"}
-	between := []string{"list zzznomatch", "peek zzznomatch", "disasm zzznomatch", "weblist zzznomatch", "web", "svg", "top", "tags", "traces", "tree", "dot", "nosuchcommand", "top ("}
+	cmds := []string{"top", "top -cum", "tree", "traces", "tags", "raw", "peek .", "dot", "callgrind", "top 3", "comments", "text f", "help", "o", "help top", "options"}
+	between := []string{"o", "help", "options", "list zzznomatch", "peek zzznomatch", "disasm zzznomatch", "weblist zzznomatch", "web", "svg", "top", "tags", "traces", "tree", "dot", "nosuchcommand", "top ("}
 	cmd := cmds[r.Intn(len(cmds))]
+	if strings.HasPrefix(cmd, "help") {
+		between = []string{"o", "options", "top"} // what help lists must not depend on what was listed before
+	}
 	// an option set, used by a report and put back to its default between two repetitions
 	excursions := [][2]string{{"source_path=/x/app", "source_path="}, {"source_path=/x/work:/y/app", "source_path="}, {"trim_path=/src", "trim_path="}, {"granularity=lines", "granularity=functions"},
 		{"nodecount=2", "nodecount=-1"}, {"sort=cum", "sort=flat"}, {"divide_by=2", "divide_by=1"}, {"relative_percentages=true", "relative_percentages=false"}, {"focus=f", "focus="},
-		{"call_tree=true", "call_tree=false"}, {"compact_labels=false", "compact_labels=true"}, {"unit=kb", "unit=minimum"}, {"sample_index=0", "sample_index="}, {"noinlines=true", "noinlines=false"}, {"mean=true", "mean=false"}}
+		{"call_tree=true", "call_tree=false"}, {"compact_labels=false", "compact_labels=true"}, {"unit=kb", "unit=minimum"}, {"noinlines=true", "noinlines=false"}, {"mean=true", "mean=false"}}
 	var lines []string
 	gran := ""
 	if r.Intn(2) == 0 {
